@@ -276,3 +276,11 @@ def root_cause(exc: BaseException) -> BaseException:
         last = cur
         cur = cur.__cause__ or cur.__context__
     return last
+
+
+def scratch_base() -> str | None:
+    """Directory for transient per-case scratch trees (tmpfs when available: ext4 rmdir stalls)."""
+    for d in (os.environ.get("VERIF_TMP"), "/dev/shm"):
+        if d and os.path.isdir(d) and os.access(d, os.W_OK):
+            return d
+    return None
